@@ -332,12 +332,9 @@ def check(run: Run) -> None:
             ok, why = _lexer_accepts_all(lx, shape)
             run.check("C07.R4", f"every YYMMDD#A^{n} is exactly one ZID token for {nm}", ok, nm, f"YYMMDD#A^{n}: {why}",
                       f"{nm}: {why}", file=rel)
-    from .c08 import recogniser_try_parses
+    from ..daterules import short_date_recogniser_agrees
 
-    run.check("C07.R4", "the date part of a ZID is validated by the parse itself", recogniser_try_parses(model, "zorg.shared.dates.is_short_date_spec", ("from_short_date_spec", "strptime")),
-              "is_short_date_spec", "hand-written calendar check",
-              "is_short_date_spec decides with its own calendar arithmetic instead of attempting the parse: any slip (leap years, month lengths) makes is_zid reject ZIDs the allocator "
-              "issued for a real date (or accept impossible ones)", file="src/zorg/shared/dates.py")
+    short_date_recogniser_agrees(run, model, "C07.R4")
     is_zid_accepts_allocated(run, model, "C07.R4", A, strptime_hook)
     # ------------------------------------------------------------- R5
     enter_id = model.func("zorg.service.compiler._file_compiler.ZorgFileCompiler.enterId")
@@ -385,7 +382,13 @@ def is_zid_accepts_allocated(run: Run, model: PyModel, rid: str, A=None, strptim
         return None
 
     hook = strptime_hook or hook
-    I3 = Interp(model, probes={"method:ext:datetime.datetime": hook, "method:ext:datetime": hook})
+
+    def date_ok(I, args, kwargs, st, node):
+        # the date part is what strftime printed for a real day; that the recogniser accepts exactly the real days
+        # is the separate obligation daterules.short_date_recogniser_agrees
+        return [(True, st)]
+
+    I3 = Interp(model, probes={"method:ext:datetime.datetime": hook, "method:ext:datetime": hook, "zorg.shared.dates.is_short_date_spec": date_ok})
     date_shape = [DIGITS, DIGITS, frozenset("01"), DIGITS, frozenset("0123"), DIGITS]
     for n in (2, 3):
         z = SeqStr(tuple(CharSet(c) for c in date_shape) + ("#",) + (CharSet(frozenset(A)),) * n)
